@@ -68,12 +68,14 @@ def _gen_op(rng, name):
             ["random", "random", "single", "all", "empty", "around-vertex",
              "subdomain", "bitmask", "bitmask"]),
             "frac": rng.choice([0.1, 0.3, 0.6]), "seed": sd,
-            "dtype": rng.choice(["int32", "int64", "list"])}
+            "dtype": rng.choice(["int32", "int64", "list"]),
+            "repeat": rng.random() < 0.2}
     if name in ("restrict", "remove", "restrict_map"):
         return {"op": name, "frac": rng.choice([0.2, 0.5, 0.8, 1.0]),
                 "seed": sd, "how": rng.choice(["array", "array", "pred", "name"]),
                 "order": rng.choice(["sorted", "sorted", "reversed",
-                                     "shuffled"])}
+                                     "shuffled"]),
+                "skip_b": rng.random() < 0.15, "skip_s": rng.random() < 0.15}
     if name == "tag_s":
         return {"op": name, "name": rng.choice(["s", "sub", "s2", "omega"]),
                 "frac": rng.choice([0.0, 0.1, 0.3, 0.5, 0.9]), "seed": sd,
@@ -104,7 +106,9 @@ def _gen_op(rng, name):
         return {"op": name, "style": rng.choice([None, "x"]),
                 "with_x": rng.random() < 0.4, "seed": sd}
     if name == "extrude":
-        return {"op": name, "n": rng.choice([1, 2, 3]), "seed": sd}
+        return {"op": name, "n": rng.choice([1, 2, 3]), "seed": sd,
+                "line": rng.choice(["sorted", "sorted", "descending",
+                                    "permuted", "refined"])}
     if name in ("clean_unused", "clean_duplicate"):
         return {"op": name, "extra": rng.choice([1, 2, 5]), "seed": sd}
     if name == "oriented":
@@ -385,7 +389,14 @@ def _marked(st, o):
         ix = _subset(s.nt, o["frac"], o["seed"]).tolist()
     if o["dtype"] == "list":
         return [int(i) for i in ix], ix
-    return np.array(ix, dtype=o["dtype"]), ix
+    arr = np.array(ix, dtype=o["dtype"])
+    if o.get("repeat") and len(ix):
+        # the same cell listed more than once (e.g. the owner cells of all
+        # boundary facets): still the same SET of marked cells
+        extra = [ix[r.randrange(len(ix))] for _ in range(r.randint(1, 3))]
+        arr = np.concatenate((arr, np.array(extra, dtype=o["dtype"])))
+        r.shuffle(arr)
+    return arr, ix
 
 
 # ----------------------------------------------------------------- steps
@@ -580,8 +591,29 @@ def _step(st, o, prop, probes, faults, catcher, skm):
                 sel = [keep[:h].copy(), keep[h:].copy()]
                 keep = np.unique(keep).astype(np.int32)
                 _bump(probes, "restrict-by-list-of-arrays")
-            r = _call(lambda: m.restrict(sel), "restrict", cls)
+            skw = {}
+            if o.get("skip_b"):
+                skw["skip_boundaries"] = True
+            if o.get("skip_s"):
+                skw["skip_subdomains"] = True
+            r = _call(lambda: m.restrict(sel, **skw), "restrict", cls)
             ix = None
+            if skw:
+                # retagging skipped: the names of that kind must be GONE (an
+                # old index array would designate other entities)
+                if o.get("skip_b") and r.boundaries is not None:
+                    raise Bad("tags-kept-although-retagging-was-skipped",
+                              what="boundaries")
+                if o.get("skip_s") and r.subdomains is not None:
+                    raise Bad("tags-kept-although-retagging-was-skipped",
+                              what="subdomains")
+                from dataclasses import replace as _replace
+                m = _replace(m, **({"_boundaries": None} if o.get("skip_b") else {}),
+                             **({"_subdomains": None} if o.get("skip_s") else {}))
+                st.m, st.s = m, Snap(m)
+                _drop_model_tags(st, st.s)
+                s = st.s
+                _bump(probes, "restrict-with-skip-flags")
         ns = Snap(r)
         _check_restrict(st, ns, keep, ix, probes)
         st.m, st.s = r, ns
@@ -704,7 +736,25 @@ def _step(st, o, prop, probes, faults, catcher, skm):
             return "skipped"
         g = random.Random(o["seed"])
         z = np.cumsum([0.0] + [g.uniform(0.3, 1.0) for _ in range(o["n"])])
-        line = skm.MeshLine(np.array(z))
+        # the same segment mesh in different (all legal) representations
+        how = o.get("line", "sorted")
+        if how == "descending":
+            line = skm.MeshLine(np.array(z[::-1]))
+        elif how == "permuted" and len(z) > 2:
+            tt = np.vstack((np.arange(len(z) - 1), np.arange(1, len(z))))
+            perm = list(range(tt.shape[1]))
+            g.shuffle(perm)
+            tt = tt[:, perm]
+            flip = [c for c in range(tt.shape[1]) if g.random() < 0.5]
+            tt[:, flip] = tt[::-1, flip]
+            line = skm.MeshLine1(np.array([z]), tt.astype(np.int32))
+        elif how == "refined":
+            line = skm.MeshLine(np.array([z[0], z[-1]])).refined(1)
+            line = line.refined(np.array([0], dtype=np.int32))
+            z = np.sort(np.array(line.p[0]))
+        else:
+            line = skm.MeshLine(np.array(z))
+        _bump(probes, "extrude-line-representation-" + how)
         r = _call(lambda: m * line, "__mul__", cls)
         ns = Snap(r)
         _check_extrude(st, ns, z, probes)
